@@ -79,7 +79,7 @@ func (c16) RequiredBuckets(tier string) []string {
 	for _, b := range c16BadBytes {
 		out = append(out, fmt.Sprintf("badbyte|%d", b))
 	}
-	out = append(out, "sep|first-of-line", "sep|inner", "record|contig-only", "idxw-large|5", "idxw-large|6", "idxw-large|7", "idxw-large|8", "idxw-large|9", "stream:collected-then-decoded", "stream:slow-path", "stream:fast-path", "malformed:intact-declared-block-then-surplus-lines")
+	out = append(out, "sep|first-of-line", "sep|inner", "record|contig-only", "record|long", "idxw-large|5", "idxw-large|6", "idxw-large|7", "idxw-large|8", "idxw-large|9", "stream:collected-then-decoded", "stream:slow-path", "stream:fast-path", "malformed:intact-declared-block-then-surplus-lines")
 	for b := 33; b <= 126; b++ {
 		out = append(out, fmt.Sprintf("res|%d", b))
 	}
@@ -885,6 +885,49 @@ func (m c16) Run(c *fw.Ctx) {
 			m.positive(c, n, alpha, sub)
 		} else {
 			m.negative(c, n, alpha, sub, k)
+		}
+	}
+
+	// G. long records through both readers: whatever a reader precomputes or
+	// caches for the first lines must hold for line 4097 and line 16667 too.
+	for _, n := range []int{245700, 245760, 245761, 245821, 300007, 1000003} {
+		for _, crlf := range []bool{false, true} {
+			if !c.NextShared() {
+				continue
+			}
+			p := make([]byte, n)
+			for i := range p {
+				p[i] = "acgtnrykm"[(i*5+i/97)%9]
+			}
+			rec := c16Record(n, model.OriginBlock(p), crlf)
+			enc := fmt.Sprintf("record of %d residues, crlf=%v, read through the public reader", n, crlf)
+			c.Begin(enc)
+			c.Count(enc, true)
+			c.Bucket("record|long")
+			var got []byte
+			var ln, cnt int
+			var serr error
+			pn, val, site, stack := fw.Guard(func() {
+				s := seqio.NewAutoScanner(bytes.NewReader(rec))
+				for s.Scan() && cnt < 3 {
+					cnt++
+					ln = gts.Len(s.Value())
+					got = s.Value().Bytes()
+				}
+				serr = s.Err()
+			})
+			if pn {
+				c.ViolateX("long-record:"+panicClass(site, val), enc, "no panic", fmt.Sprint(val), stack, nil)
+				continue
+			}
+			if serr != nil || cnt != 1 {
+				c.Violate("long-record:not-read", enc, "1 record", fmt.Sprintf("%d records, err=%v", cnt, serr))
+				continue
+			}
+			if ln != n || !bytes.Equal(got, p) {
+				a, b := c16Diff(p, got)
+				c.Violate("long-record:residues", enc, a, fmt.Sprintf("Len()=%d; %s", ln, b))
+			}
 		}
 	}
 
